@@ -127,10 +127,11 @@ def r4(ctx, prog):
     ok = False
     for w in idxs:
         src = rl.var_of(f, f.nodes[f.strip(w["init"])]["c"][0])
+        pm = {d: "$%d" % k for k, d in enumerate(f.pids)}
+        pm[src], pm[w["d"]] = "#idx", "#word"
         for _, b in rl.local_decl(f, lambda dd: "init" in dd):
-            t = rl.canon(f, b["init"]).replace(" ", "")
-            nm = {n["d"]: n["n"] for n in f.nodes if n["k"] == "DeclRefExpr"}
-            if src is not None and t in ("(%s-(%s*%d))" % (nm.get(src), w["n"], bits), "(%s-(%d*%s))" % (nm.get(src), bits, w["n"]), "(%s%%%d)" % (nm.get(src), bits)):
+            t = rl.canon(f, b["init"], pm).replace(" ", "")
+            if src is not None and t in ("(#idx-(#word*%d))" % bits, "(#idx-(%d*#word))" % bits, "(#idx%%%d)" % bits):
                 ok = True
     ctx.check(R, ok, f.where(), "bit = blockidx - (blockidx/64)*64 (always in [0,63])", key="C12.R4:bit")
     # left-over mask
@@ -151,9 +152,10 @@ def r5(ctx, prog):
         raise AnalysisBroken("C12.R5: bsize local not found")
     b = bs[0]
     adv = [(a, rhs) for n in f.nodes if n["k"] == "CompoundAssignOperator" and n["op"] == "+=" for a, rhs in [(n["i"], n["c"][1])]]
-    texts = sorted(rl.canon(f, rhs).replace(" ", "") for a, rhs in adv)
-    nm = next(n["n"] for n in f.nodes if n["k"] == "DeclRefExpr" and n["d"] == b)
-    ok = texts.count(nm) >= 2 and any(t in ("(%s*64)" % nm, "(64*%s)" % nm) for t in texts)
+    pm = {d: "$%d" % k for k, d in enumerate(f.pids)}
+    pm[b] = "#bsize"
+    texts = sorted(rl.canon(f, rhs, pm).replace(" ", "") for a, rhs in adv)
+    ok = texts.count("#bsize") >= 2 and any(t in ("(#bsize*64)", "(64*#bsize)") for t in texts)
     ctx.check(R, ok, f.where(), "cursor advances: %s" % texts, key="C12.R5:advance")
     sparse = [c for c in f.all(kind="CallExpr") if f.nodes[c].get("callee") is None and any(f.nodes[x]["k"] == "BinaryOperator" and f.nodes[x]["op"] == "*" and f.mentions_decl(x, b) for x in f.walk(f.nodes[c]["args"][2]))]
     ok = len(sparse) == 1 and any(rl.is_call(f, x, ("mi_ctz", "__builtin_ctzl")) or rl.var_of(f, x) is not None for x in f.walk(f.nodes[sparse[0]]["args"][2]))
